@@ -91,10 +91,11 @@ def cases(tier, rng, run):
                 out.append(Case(f"PYD\tva=0,al=1\tF|x|{base}=0:{second}|{c},0,a b\tF|y|{base}=0:{oks[0]}|{c},0,a b", "classdef2", {"want": "reject"}))
             out.append(Case(f"PYD\tva=0,al=1\tF|x|{base}=0:{oks[0]}|{c},0,a b\tF|y|{base}=0:{oks[-1]}|{c},0,a b\tF|z|nd|{c},0,a b", "classdef2", {"want": "ok"}))
     # a name bound by one field and met again by a later one, zero sizes included: one context for the whole validation
-    for c in gen_ctx.rebinding_contexts(with_provider=False):
+    for c in gen_ctx.rebinding_contexts(with_provider=False) + gen_ctx.group_contexts():
         fields = [f"F|{p.name}|nd|{p.slots[0].spec()}" for p in c.params]
         vals = ";".join(p.slots[0].val() for p in c.params)
-        for order in ("0.1", "1.0"):
+        n_f = len(c.params)
+        for order in (".".join(map(str, range(n_f))), ".".join(map(str, reversed(range(n_f))))):
             out.append(Case("PYD\tva=0\t" + "\t".join(fields) + f"\tN|{order}|{vals}", "rebind"))
     # several declared scalar types, the union written inside np.dtype[...] or one level up, the contradicting one in any position
     for c in translate.CLASSES:
